@@ -6,4 +6,5 @@ using E17_1 = E<17,1>;
 VC_REGISTER_ELEM(E17_1, E17_1)
 using E24_8 = E<24,8>;
 VC_REGISTER_ELEM(E24_8, E24_8)
+VC_REGISTER_ELEM_NP(E17_1, E17_1)
 }
